@@ -67,10 +67,10 @@ def run(spec, cfg, sc, limit, expire_at, time_limit=1.0):
 
 
 def timer_start_read(clock):
-    for i, chain in enumerate(clock.sites):
-        if len(chain) > 2 and chain[0] == "__init__" and chain[1] == "__init__" and chain[2] == "solve":
-            return i + 1
-    return None
+    from pgfmc.drive.run import deadline_start_index
+
+    i = deadline_start_index(clock)
+    return None if i is None else i + 1
 
 
 def cases(tier, seed):
